@@ -18,8 +18,9 @@ for DEMO in $DEMOS; do
   echo "== demo $T WITH change" >> "$LOG"
   cargo test --offline --test "$T" 2>&1 | grep -E "^test |^test result|panicked" | head -12 >> "$LOG"
   echo "== demo $T WITHOUT change" >> "$LOG"
-  git stash -q
+  # (not git stash: the stash is shared by all worktrees of a repository)
+  git diff > "$O/.reapply.diff"; git checkout -- .
   cargo test --offline --test "$T" 2>&1 | grep -E "^test |^test result|panicked" | head -12 >> "$LOG"
-  git stash pop -q
+  git apply "$O/.reapply.diff"; rm -f "$O/.reapply.diff"
 done
 cat "$LOG"
